@@ -18,6 +18,8 @@ CLAIMS = {
          "serde_json parsing of the problem document and reqwest are trusted; non-ASCII / longer type strings are outside the bound.", "5 C08"),
  'C09': ("Inductive single step of the real RateLimit::block_until_allowed from an arbitrary log: window count and no-forgetting invariants hold for every log content, period 1..20 s and clock reading (n<=3, <=2 limits); with the induction argument in DESIGN.md this bounds every window of every history. Liveness: a permitted request returns after one sleep.",
          "Whole-second clock; sleep/Instant::now replaced by over-approximating models; n<=3, periods<=20 s, <=2 limits; http.rs call sites covered only as far as DESIGN.md C09 says.", "5 C09"),
+ 'C11': ("Narrow: on a verbatim source slice of Account::synchronize (the conditional updates that follow the change flags) the solver shows, for all 4 patterns of contacts changed / key changed and every failure choice of the requests, that no account is created, exactly one update per changed item is sent, a contacts update is only ever signed by the key the CA holds (key roll-over first), Ok iff no request failed, and after Ok the CA holds the current key.",
+         "Only the update decision/order of one synchronize step with an account URL on record and an unchanged binding; the three request functions are contract models; fingerprint computation, registration-once across restarts, persistence of the account file and the request bodies are outside.", "5 C11"),
  'C13': ("For every u32 mode and every presence pattern the solver shows the mode/owner getters return the configured value, else 0600 (keys, accounts) / 0644 (certificates) / none.",
          "The configuration getters, storage::set_owner on the nix model and (source slice of write_file, shared with C02) the mode given to open() per file type; umask and the FileManager literals of MainEventLoop::new are outside.", "5 C13"),
  'C14': ("For each of the 14 Option-typed [global] options and every presence pattern in including/included file the solver shows the later file wins on a verbatim slice of read_cnf; sections are concatenated; renew_delay / random_early_renew / file_name_format / directory take the most specific level for every presence pattern; unresolved endpoint / rate-limit references are rejected.",
@@ -33,7 +35,6 @@ NA = {
  'C03': "request_certificate as a whole did not reach a solver verdict within reach of Kani/CBMC (async state machine + heap): no sound check, see DESIGN.md section 4",
  'C07': "renew_certificate with cuts is encoded (harness/main_event_loop.rs) but every run ended in solver out-of-memory or timeout (Arc<RwLock<Account>> drop glue, hashbrown): no verdict, no claim",
  'C10': "hooks::call/call_single on the async-process model and Config::get_hook are encoded (harness/hooks.rs, harness/config.rs) but all runs ended in timeout or solver out-of-memory (HashSet<HookType> membership, Hook clones): no verdict, no claim",
- 'C11': "Account::synchronize with contract models of the three requests is encoded (harness/account.rs) but the runs ended in solver out-of-memory / timeout: no verdict, no claim",
  'C12': "concurrency: Kani/CBMC has no model of interleaved tasks; the single-task lock-discipline substitute depends on the flow harness, which did not converge",
  'C16': "tacd's observable behaviour is a TLS handshake produced by OpenSSL through FFI over a socket; no Rust-side logic to execute symbolically",
  'C17': "process survival under connection histories (threads, sockets, OpenSSL accept, panic=abort): outside what Kani/CBMC can model",
